@@ -75,7 +75,7 @@ theorem fv_est (h : Hooks) : ∀ (v : Fv) (data : Bytes), FvF h v data → FvRA 
     obtain ⟨hh, hle, hbuf, hc⟩ := hF'
     simp only [Fv.info] at hb
     rw [← hbuf] at hb
-    have hhdr := fv_hdr_est h i buf files data hF hRA.1 hRA.2.1 hb
+    have hhdr := fv_hdr_est h i buf files data hF hRA.1 hb
     rw [FvOk]
     refine ⟨hhdr, ?_⟩
     by_cases hg : i.fsGuid = guidFFS2 ∨ i.fsGuid = guidFFS3
@@ -92,7 +92,7 @@ theorem fv_est (h : Hooks) : ∀ (v : Fv) (data : Bytes), FvF h v data → FvRA 
           simpa using hg
         rw [if_pos hffs] at hf0
         have hbl : buf.length ≤ data.length := by rw [hbuf, List.length_take]; omega
-        exact filesAt_est h files buf i.dataOffset i.freeSpace (fvErased buf) hc hRA.2.2 hNv n (fvFirst buf)
+        exact filesAt_est h files buf i.dataOffset i.freeSpace (fvErased buf) hc hRA.2 hNv n (fvFirst buf)
           (by rw [hhdr.dOff, up8_eq_alignUp, alignUp8_idem]) hf0.2 (fvErased_cases buf) (by omega)
     · rw [if_neg hg] at hc
       rw [hc.1, FilesOk]; trivial
